@@ -11,7 +11,7 @@ from tlc import run_tlc
 
 LEAVES = ["read", "peekp", "one", "oneof", "sup", "softfail", "fatalfail", "many_ctx0", "many_ctx1", "many_ctx0_fatal"]
 UNARY = ["map", "lazy", "to_fatal", "with_soft_err", "or_fail", "map_fatal_err", "and_then_ok", "and_then_soft",
-         "and_then_fatal", "and_then_err", "filter", "filter_map", "peek", "to_option", "or_default", "many1", "many0", "then_with"]
+         "and_then_fatal", "and_then_err", "filter", "filter_map", "peek", "to_option", "or_default", "many1", "many0", "then_with", "then_dep"]
 BINARY = ["and", "and_left", "and_right", "or", "orbox", "seq2", "delimited", "delimited_opt"]
 TERNARY = ["surround_opt", "surround_mand"]
 
@@ -39,8 +39,8 @@ def may_succeed_without_consuming(t):
         return False
     if op in ("peekp", "sup", "peek", "to_option", "or_default", "many0", "and_then_err", "many_ctx0", "many_ctx0_fatal"):
         return True
-    if op == "many_ctx1":
-        return False
+    if op in ("many_ctx1", "then_dep"):
+        return False          # then_dep always consumes the character its right side reads
     if op in ("softfail", "fatalfail"):
         return False
     if op in ("map", "lazy", "to_fatal", "with_soft_err", "or_fail", "map_fatal_err", "and_then_ok", "and_then_soft",
